@@ -1,6 +1,7 @@
 import NasimModel.Generated.SrcBound
 import NasimModel.Proofs.SrcTie
 import NasimModel.Props.C20
+import NasimModel.Props.C10
 /-!
 # Source tie: the hop count and the advertised score bound
 
@@ -97,5 +98,90 @@ theorem Src_score_upper_bound (e : Env) : SrcBound.NASimEnv.get_score_upper_boun
   simp only [List.foldl_map]
 
 theorem Src_minimum_hops (e : Env) : SrcBound.NASimEnv.get_minimum_hops e = hops e.sc := Src_hops e.sc
+
+/-! ### the Box bounds of the observation space (C10) -/
+
+open PyRt in
+theorem Ext.min_assoc (a b c : Ext) : Ext.min a (Ext.min b c) = Ext.min (Ext.min a b) c := by
+  cases a <;> cases b <;> cases c <;> simp [Ext.min, Int.min_assoc]
+
+open PyRt in
+theorem Ext.max_assoc (a b c : Ext) : Ext.max a (Ext.max b c) = Ext.max (Ext.max a b) c := by
+  cases a <;> cases b <;> cases c <;> simp [Ext.max, Int.max_assoc]
+
+open PyRt in
+theorem foldl_emin_out (l : List Int) (a X : Ext) :
+    Ext.min a (l.foldl (fun m x => Ext.min m (.fin x)) X) = l.foldl (fun m x => Ext.min m (.fin x)) (Ext.min a X) := by
+  induction l generalizing X with
+  | nil => rfl
+  | cons x xs ih => simp only [List.foldl_cons]; rw [ih, Ext.min_assoc]
+
+open PyRt in
+theorem foldl_emax_out (l : List Int) (a X : Ext) :
+    Ext.max a (l.foldl (fun m x => Ext.max m (.fin x)) X) = l.foldl (fun m x => Ext.max m (.fin x)) (Ext.max a X) := by
+  induction l generalizing X with
+  | nil => rfl
+  | cons x xs ih => simp only [List.foldl_cons]; rw [ih, Ext.max_assoc]
+
+open PyRt in
+theorem foldl_emin_fin (l : List Int) (e : Int) :
+    l.foldl (fun m x => Ext.min m (.fin x)) (.fin e) = .fin (l.foldl min e) := by
+  induction l generalizing e with
+  | nil => rfl
+  | cons x xs ih => simp only [List.foldl_cons, Ext.min]; exact ih _
+
+open PyRt in
+theorem foldl_emax_fin (l : List Int) (e : Int) :
+    l.foldl (fun m x => Ext.max m (.fin x)) (.fin e) = .fin (l.foldl max e) := by
+  induction l generalizing e with
+  | nil => rfl
+  | cons x xs ih => simp only [List.foldl_cons, Ext.max]; exact ih _
+
+theorem foldl_pair {α σ τ : Type} (l : List α) (f : σ → α → σ) (g : τ → α → τ) (a : σ) (b : τ) :
+    l.foldl (fun (st : σ × τ) x => (f st.1 x, g st.2 x)) (a, b) = (l.foldl f a, l.foldl g b) := by
+  induction l generalizing a b with
+  | nil => rfl
+  | cons x xs ih => simp only [List.foldl_cons]; exact ih _ _
+
+open PyRt in
+theorem Src_value_bounds (sc : Scenario) :
+    SrcBound.Scenario.host_value_bounds sc =
+      ((sc.hosts.map (·.value)).foldl (fun m x => Ext.min m (.fin x)) .posInf,
+       (sc.hosts.map (·.value)).foldl (fun m x => Ext.max m (.fin x)) .negInf) ∧
+    SrcBound.Scenario.host_discovery_value_bounds sc =
+      ((sc.hosts.map (·.dvalue)).foldl (fun m x => Ext.min m (.fin x)) .posInf,
+       (sc.hosts.map (·.dvalue)).foldl (fun m x => Ext.max m (.fin x)) .negInf) := by
+  constructor
+  · unfold SrcBound.Scenario.host_value_bounds
+    simp only [List.foldl_map]
+    have := foldl_pair sc.hosts (fun (m : Ext) (h : HostDef) => Ext.min m (.fin h.value))
+      (fun (m : Ext) (h : HostDef) => Ext.max m (.fin h.value)) .posInf .negInf
+    simp only [forEach_next]
+    rw [this]
+  · unfold SrcBound.Scenario.host_discovery_value_bounds
+    simp only [List.foldl_map]
+    have := foldl_pair sc.hosts (fun (m : Ext) (h : HostDef) => Ext.min m (.fin h.dvalue))
+      (fun (m : Ext) (h : HostDef) => Ext.max m (.fin h.dvalue)) .posInf .negInf
+    simp only [forEach_next]
+    rw [this]
+
+open PyRt in
+theorem Ext.min_fin_posInf (a : Int) : Ext.min (.fin a) .posInf = .fin a := rfl
+open PyRt in
+theorem Ext.max_fin_negInf (a : Int) : Ext.max (.fin a) .negInf = .fin a := rfl
+open PyRt in
+theorem Ext.min_fin_fin (a b : Int) : Ext.min (.fin a) (.fin b) = .fin (min a b) := rfl
+open PyRt in
+theorem Ext.max_fin_fin (a b : Int) : Ext.max (.fin a) (.fin b) = .fin (max a b) := rfl
+
+/-- `Observation.get_space_bounds`: the Box bounds of the observation space are the model's `obsLow` / `obsHigh`
+(units of 1/64) -/
+theorem Src_space_bounds (sc : Scenario) :
+    SrcBound.Observation.get_space_bounds sc = (.fin (obsLow sc), .fin (obsHigh sc)) := by
+  unfold SrcBound.Observation.get_space_bounds obsLow obsHigh listMin listMax
+  simp only [(Src_value_bounds sc).1, (Src_value_bounds sc).2]
+  simp only [foldl_emin_out, foldl_emax_out, Ext.min_fin_posInf, Ext.max_fin_negInf, foldl_emin_fin, foldl_emax_fin,
+    Ext.min_fin_fin, Ext.max_fin_fin, List.foldl_append, List.foldl_cons, List.foldl_nil]
+  simp
 
 end NASim
